@@ -75,6 +75,7 @@ CANARIES = [
     ("center-drop-ties", "src/algo/distance_matrix.rs", "                Equal => center.push(i),", "                Equal => (),", ["C18"]),
     ("center-no-clear", "src/algo/distance_matrix.rs", "                    center.clear();\n                    center.push(i);", "                    center.push(i);", ["C18"]),
     ("center-min-not-updated", "src/algo/distance_matrix.rs", "                    center.push(i);\n                    min = e;", "                    center.push(i);", ["C18"]),
+    ("filter-vertices-no-row", AM, "            if predicate(u) {\n                let _ = arcs.entry(u).or_default();\n", "            if predicate(u) {\n", ["C11"]),
     ("er-nonstrict-draw", EL, ".filter(|_| rng.next_f64() < p)", ".filter(|_| rng.next_f64() <= p)", ["C15"]),
     ("search-shortcut", "src/algo/predecessor_tree.rs", "        self.search_by(s, |&v, _| v == t)",
      "        if s != t && self.pred.get(t) == Some(&Some(s)) {\n            return None;\n        }\n\n        self.search_by(s, |&v, _| v == t)", ["C19"]),
